@@ -72,8 +72,21 @@ def gen_scenario(seed, idx):
             steps.append({"op": "lookup", "inst": rng.choice(insts), "type": rng.choice(TYPES), "timeout": rng.choice([200, 1500, 3000])})
         elif k == "register":
             live_s += 1
-            steps.append({"op": "register", "name": "s%d.%s" % (rng.choice([1, 2, 3, 4]), TA), "type": TA, "server": rng.choice(["ha.local.", "hc.local."]),
-                          "port": 90, "coop": True})
+            st_ = {"op": "register", "name": "s%d.%s" % (rng.choice([1, 2, 3, 4]), TA), "type": TA, "server": rng.choice(["ha.local.", "hc.local."]),
+                   "port": 90, "coop": True}
+            if rng.random() < 0.12:
+                # arguments at and over what the encoder can write (D28): 63/64-byte server labels (ASCII and 3-byte UTF-8), port 65535/65536
+                st_["server"], st_["port"] = rng.choice([("h" * 63 + ".local.", 90), ("h" * 64 + ".local.", 90), ("\u20ac" * 21 + ".local.", 90),
+                                                         ("\u20ac" * 22 + ".local.", 90), ("hc.local.", 65535), ("hc.local.", 65536)])
+                st_["coop"] = rng.random() < 0.5
+                if len(st_["server"].split(".")[0].encode()) > 63 or st_["port"] > 65535:
+                    st_["unsafe"] = True
+                steps.append(st_)
+                # ... and a query that makes the responder write its records (legacy unicast: answered inside the block)
+                steps.append({"op": "sleep", "ms": rng.choice([0, 1500])})
+                steps.append({"op": "deliver", "kind": "query", "name": st_["name"], "qtype": 33, "port": 40000, "src": ["10.0.0.9", 40000]})
+            else:
+                steps.append(st_)
         elif k == "unregister":
             steps.append({"op": "unregister", "i": rng.randrange(4)})
         elif k == "update":
@@ -100,7 +113,7 @@ def packet_of(step, rng_hostile):
         r = random.Random(step["n"])
         kind, data = B.gen_item(r, [], [TA, "s1." + TA, "ha.local.", "_services._dns-sd._udp.local.", "s2." + TA, TB], None,
                                 r.choice(["rand", "c02valid", "c02mut", "c02out", "c02outmut", "graph", "chain", "query", "querymut", "resp", "hostile", "lookup",
-                                          "lookuptrunc", "d8", "d8b", "oversize"]))
+                                          "lookuptrunc", "d8", "d8b", "oversize", "nsec", "nsec"]))
         return data
     if k == "raw":
         return bytes.fromhex(step["data"])
@@ -346,7 +359,13 @@ def simulate(sc):
                 return
             b = log("r", data=data.hex(), addr=src[0], port=src[1])
             try:
-                lst.datagram_received(data, src)
+                with B.Guard(B.HANG_S):
+                    lst.datagram_received(data, src)
+            except B.HangDetected:
+                if b is not None:
+                    b["raised"] = "HangDetected"
+                obs["escapes"].append({"exc": "HangDetected", "block": len(obs["blocks"]) - 1, "len": len(data), "msg": "no return", "data": data.hex(), "src": list(src)})
+                obs["hung"] = True
             except Exception as e:
                 if b is not None:
                     b["raised"] = B.exc_name(e)
@@ -357,6 +376,8 @@ def simulate(sc):
         a.deliver = lambda data, src: deliver(data, src, top=False)
         infos, tasks, pending = [], [], []
         for step in sc["steps"]:
+            if obs.get("hung"):
+                break
             op = step["op"]
             try:
                 if op == "user":
@@ -418,7 +439,11 @@ def simulate(sc):
         await zc._async_close()
 
     try:
-        sim.run(main)
+        with B.Guard(B.CASE_S):
+            sim.run(main)
+    except B.HangDetected:
+        obs["hung"] = True
+        obs["escapes"].append({"exc": "HangDetected", "block": len(obs["blocks"]) - 1, "len": 0, "msg": "no return (outside datagram_received)"})
     finally:
         for cls, name, orig in saved:
             setattr(cls, name, orig)
@@ -458,15 +483,45 @@ def impl_summary(b):
                                          j(a["users"]))
 
 
-def judge(obs):
+ENC_EXC = ("NamePartTooLongException", "struct.error")
+D28_SIG = "C15:unencodable-registration-escapes"
+D28_WHAT = ("a service whose records the encoder cannot write (server label > 63 bytes / port > 65535 / TXT > 65535 bytes) was accepted by "
+            "async_register_service -- only the instance name is validated, the probe carries only the type, registry.async_add runs before the "
+            "broadcast task fails -- and stays registered: a query for it then raises %s out of %s")
+
+
+def unsafe_scenario(sc):
+    return any(st.get("unsafe") for st in sc["steps"])
+
+
+def judge(obs, sc=None):
+    """stage O for a scenario whose user code behaves (no raising listener / handler).  With an *unsafe* registration in the scenario
+    (arguments the encoder cannot write): the API call may raise the encoder's exception to its caller -- that is the repaired
+    behaviour (D28) -- but nothing may escape into the loop afterwards."""
     bad = []
+    unsafe = sc is not None and unsafe_scenario(sc)
     for e in obs["escapes"]:
-        bad.append(("C15:escape:%s" % e["exc"], "%s escaped datagram_received (api stream, block %d, %d bytes)" % (e["exc"], e["block"], e["len"])))
+        if e["exc"] == "HangDetected":
+            bad.append(("C15:hang", "a call into the library did not return within the wall-clock budget (api stream, block %d, %d bytes): an unbounded loop" % (e["block"], e["len"])))
+            continue
+        if unsafe and e["exc"] in ENC_EXC:
+            bad.append((D28_SIG, D28_WHAT % (e["exc"], "datagram_received (block %d)" % e["block"])))
+        else:
+            bad.append(("C15:escape:%s" % e["exc"], "%s escaped datagram_received (api stream, block %d, %d bytes)" % (e["exc"], e["block"], e["len"])))
     for e in obs["errors"]:
-        bad.append(("C15:loop-exception:%s" % e["exc"], "the loop exception handler was called (api stream): %s %s" % (e["msg"], e["where"])))
+        if e["exc"] == "HangDetected":
+            bad.append(("C15:hang", "a timer callback or task step did not return within the wall-clock budget (api stream): %s" % e["where"][:60]))
+            continue
+        if unsafe and e["exc"] in ENC_EXC:
+            bad.append((D28_SIG, D28_WHAT % (e["exc"], "a timer callback (%s)" % e["where"][:60])))
+        else:
+            bad.append(("C15:loop-exception:%s" % e["exc"], "the loop exception handler was called (api stream): %s %s" % (e["msg"], e["where"])))
     for e in obs["api_raised"]:
-        if e["exc"] not in ("ServiceNameAlreadyRegistered", "NonUniqueNameException", "BadTypeInNameException"):
-            bad.append(("C15:api-raised:%s" % e["exc"], "an API call of a well-formed scenario raised %s (%s)" % (e["exc"], e["op"])))
+        if e["exc"] in ("ServiceNameAlreadyRegistered", "NonUniqueNameException", "BadTypeInNameException"):
+            continue
+        if unsafe and e["exc"] in ENC_EXC:
+            continue     # to the caller (register / update) or inside the broadcast task: not the event loop
+        bad.append(("C15:api-raised:%s" % e["exc"], "an API call of a well-formed scenario raised %s (%s)" % (e["exc"], e["op"])))
     return bad
 
 
@@ -488,46 +543,55 @@ INV_NAMES = ["index", "regsafe", "cacheshape", "svcshape", "names", "fields", "h
 INV_OK = " ".join("1" for _ in INV_NAMES)
 
 
-def known_sigs():
-    try:
-        k = json.loads((C.ROOT / "known_findings.json").read_text()).get("entries", [])
-    except Exception:
-        return set()
-    return {e["sig"] for e in k if e.get("property") == "C15" and e.get("kind") == "finding"}
-
-
-def finding_cases():
+def corpus_scenarios():
     out = []
     for name, body in C.load_corpus("C15"):
         c = body.get("case", body)
-        if "steps" in c and "expect" in body:
+        if "steps" in c and "role" in body:
             out.append((name, body))
     return out
 
 
-def check_finding(res, name, body, known):
-    """a finding replay must still show what the notes say; it is a violation of the property only for the coordinator to decide"""
-    obs = simulate(body["case"])
-    exp = body["expect"]
-    seen = {"escape:" + e["exc"] for e in obs["escapes"]} | {"loop:" + e["exc"] for e in obs["errors"]}
+def check_corpus(res, name, body, seen):
+    """scenario replays of the corpus, by role:
+    * `defect`     -- a defect's input (D28): judged like any scenario; on a repaired tree it simply no longer violates;
+    * `repaired`   -- user code that raises, on a path the library repaired (D24b): the repaired behaviour is demanded, the old one is a violation;
+    * `hypothesis` -- behaviour outside the property's quantifier (the application's callbacks raise / its arguments are unencodable):
+                      run to keep the note honest, reported as a note, never a violation."""
+    sc = body["case"]
+    obs = simulate(sc)
     res.evaluations += len(obs["blocks"])
-    ok = all(x in seen for x in exp["observed"]) and len(obs["escapes"]) >= exp.get("escapes_at_least", 0)
-    res.count("finding-replay:" + ("reproduced" if ok else "NOT-reproduced") + ":" + body["sig"])
-    if not ok:
-        res.notes.append("finding replay %s no longer reproduces (%s expected, saw %s)" % (name, exp["observed"], sorted(seen)))
-        return
-    if body["sig"] in known:
-        res.violate(body["sig"], body["what"], {"file": name, "case": body["case"]})
-    else:
-        res.notes.append("FINDING-CANDIDATE (not in known_findings.json): %s -- %s" % (body["sig"], body["what"]))
+    role = body["role"]
+    res.count("corpus-scenario:" + role)
+    if role == "defect":
+        for sig, what in judge(obs, sc):
+            B.violate_limited(res, seen, sig, what, {"file": name, "scenario": sc})
+        return obs
+    if role == "repaired":
+        exp = body["expect"]
+        esc = [e for e in obs["escapes"]]
+        got = [c for b in obs["blocks"] for c in b.get("cbs", [])]
+        want = ["%d:add:%s:%s" % (exp["browser"], C.hs(exp["type"]), C.hs(n + "." + exp["type"])) for n in exp["delivered"]]
+        wedged = len(esc) > exp["escapes"] or any(w not in got for w in want)
+        if wedged:
+            B.violate_limited(res, seen, body["sig"], body["what"] + " (escapes: %d, expected %d; missing callbacks: %s)"
+                              % (len(esc), exp["escapes"], [w for w in want if w not in got]), {"file": name, "scenario": sc})
+        for e in obs["errors"]:
+            B.violate_limited(res, seen, "C15:loop-exception:%s" % e["exc"], "the loop exception handler was called (api stream): %s" % e["msg"],
+                              {"file": name, "scenario": sc})
+        return obs
+    # hypothesis
+    seen_ = sorted({"escape:" + e["exc"] for e in obs["escapes"]} | {"loop:" + e["exc"] for e in obs["errors"]})
+    res.notes.append("outside the quantifier (hypothesis %s): %s -- observed %s" % (body["hypothesis"], body["what"], seen_))
+    return obs
 
 
 def run_stream(res, ctx, n):
-    known = known_sigs()
-    for name, body in finding_cases():
-        check_finding(res, name, body, known)
     acc = []
     seen = {}
+    hung = 0
+    for name, body in corpus_scenarios():
+        check_corpus(res, name, body, seen)
     for idx in range(n):
         sc = gen_scenario(ctx["seed"], idx)
         obs = simulate(sc)
@@ -535,8 +599,21 @@ def run_stream(res, ctx, n):
         for b in obs["blocks"]:
             res.count("api-block:" + b["op"])
             res.nontriv(("api", b["op"], bool(b.get("cbs")), b["after"]["browsers"] > 0, b["after"]["lookups"] > 0, b["after"]["cached"] > 0) if "after" in b else ("api", b["op"], "raised"))
-        for sig, what in judge(obs):
-            B.violate_limited(res, seen, sig, what, {"scenario": sc})
+        for sig, what in judge(obs, sc):
+            hd = [e for e in obs["escapes"] if e["exc"] == "HangDetected" and "data" in e]
+            if sig == "C15:hang" and hd:
+                B.violate_limited(res, seen, sig, what, {"scenario": {"seed": sc["seed"], "idx": sc["idx"], "steps": [
+                    {"op": "register", "name": "s1." + TA, "type": TA, "server": "ha.local.", "port": 80, "coop": True},
+                    {"op": "lookup", "inst": "i1", "type": TB, "timeout": 3000},
+                    {"op": "deliver", "kind": "raw", "data": hd[0]["data"], "src": hd[0]["src"]}]}})
+            else:
+                B.violate_limited(res, seen, sig, what, {"scenario": sc})
+        if obs.get("hung"):
+            hung += 1
+            if hung >= 2:
+                res.notes.append("api stream stopped after %d scenarios: %d of them contained a call into the library that did not return" % (idx + 1, hung))
+                break
+            continue          # the block log of a hung scenario is not replayed
         acc.append((sc, obs))
     if not ctx["driver_ok"] or not acc:
         return
@@ -563,6 +640,10 @@ def run_stream(res, ctx, n):
     for (sc, k, line), ml in zip(inv, iout):
         res.evaluations += 1
         res.count("inv-states")
+        if ml != INV_OK and unsafe_scenario(sc) and ml.split(" ") == ["1", "0"] + ["1"] * (len(INV_NAMES) - 2):
+            # the registered-but-unencodable service of defect D28 is exactly a violation of `RegSafe`: reported by stage O, not again here
+            res.count("inv-regsafe-broken-by-unsafe-registration")
+            continue
         if ml != INV_OK:
             bits = dict(zip(INV_NAMES, ml.split(" "))) if ml and ml[0] in "01" else ml[:80]
             res.disagree("c15inv", {"scenario": sc, "before_block": k, "line": line[:4000]}, INV_OK, bits)
@@ -575,7 +656,7 @@ def replay(body):
     case = body.get("case", body)
     sc = case.get("scenario", case)
     obs = simulate(sc)
-    out = {"violations": ["%s: %s" % b for b in judge(obs)], "escapes": obs["escapes"], "loop_errors": obs["errors"], "api_raised": obs["api_raised"],
+    out = {"violations": ["%s: %s" % b for b in judge(obs, sc)], "escapes": obs["escapes"], "loop_errors": obs["errors"], "api_raised": obs["api_raised"],
            "blocks": len(obs["blocks"])}
     out["violates"] = bool(out["violations"])
     try:
